@@ -114,7 +114,6 @@ def schedModel : Sched.Model SSt where
     let n0 := s.st.completed.length
     let s1 := (step s.st Op.destroy).1
     (s1.completed.drop n0).map (sevOf s)
-  pre _ _ := true
 
 partial def loop (lines : Array String) (i : Nat) (st : Option State) : IO Unit := do
   if h : i < lines.size then
